@@ -596,3 +596,108 @@ theorem lexTracedSched_ok (sched : List (Res Pos) → Cfg) (rep : Bool) (src : L
 
 
 end C03
+
+/-! ### positions reported by the specification lie in the source -/
+namespace C03
+
+theorem scan_col_lt (cfg : Cfg) : ∀ (f : Nat) (st : St) (l : List Char) (col : Nat),
+    ∀ item ∈ Spec.scan cfg f st l col, ∀ p, item.pos? = some p → p < col + l.length := by
+  intro f
+  induction f with
+  | zero => intro st l col item hi p hp; simp [Spec.scan] at hi; subst hi; simp [Res.pos?] at hp
+  | succ f ih =>
+    intro st l col item hi p hp
+    unfold Spec.scan at hi
+    cases l with
+    | nil => simp at hi
+    | cons c t =>
+      simp only [] at hi
+      have here : ∀ (it : Res Nat), it.pos? = some p → (∀ q, it.pos? = some q → q = col) →
+          p < col + (c :: t).length := by
+        intro it h1 h2; have := h2 p h1; simp only [List.length_cons]; omega
+      have tail : ∀ st', item ∈ Spec.scan cfg f st' t (col + 1) → p < col + (c :: t).length := by
+        intro st' h; have := ih st' t (col + 1) item h p hp; simp only [List.length_cons]; omega
+      cases hc : cfg.cat c <;> simp only [hc] at hi
+      case escape =>
+        cases hcs : Spec.csName cfg (t.length + 1) t (col + 1) with
+        | none => rw [hcs] at hi; simp at hi; subst hi; simp [Res.pos?] at hp
+        | some x =>
+          obtain ⟨name, st', t', col'⟩ := x
+          rw [hcs] at hi
+          simp only [List.mem_cons] at hi
+          have hsum := csName_sum cfg _ _ _ _ _ _ _ hcs
+          rcases hi with rfl | hi
+          · exact here _ hp (by intro q hq; simp [Res.pos?] at hq; exact hq.symm)
+          · have := ih st' t' col' item hi p hp; simp only [List.length_cons]; omega
+      case endOfLine =>
+        cases st <;> simp at hi
+        all_goals (subst hi; exact here _ hp (by intro q hq; simp [Res.pos?] at hq; exact hq.symm))
+      case space =>
+        cases st <;> simp only [List.mem_cons] at hi
+        case midLine =>
+          rcases hi with rfl | hi
+          · exact here _ hp (by intro q hq; simp [Res.pos?] at hq; exact hq.symm)
+          · exact tail _ hi
+        all_goals exact tail _ hi
+      case superscript =>
+        cases he : Spec.expanded c t with
+        | none =>
+          rw [he] at hi
+          simp only [List.mem_cons] at hi
+          rcases hi with rfl | hi
+          · exact here _ hp (by intro q hq; simp [Res.pos?] at hq; exact hq.symm)
+          · exact tail _ hi
+        | some x =>
+          obtain ⟨c', t', n⟩ := x
+          rw [he] at hi
+          have := ih st (c' :: t') (col + n) item hi p hp
+          have hn := (expanded_n he).2
+          simp only [List.length_cons] at this ⊢; omega
+      case comment => simp at hi
+      case ignored => exact tail _ hi
+      all_goals
+        simp only [List.mem_cons] at hi
+        rcases hi with rfl | hi
+        · exact here _ hp (by intro q hq; simp [Res.pos?] at hq; exact hq.symm)
+        · exact tail _ hi
+
+theorem lines_positions (cfg : Cfg) (rep : Bool) : ∀ (ls : List (List Char)) (n : Nat),
+    ∀ r ∈ Spec.lines cfg rep n ls, ∀ p, r.pos? = some p →
+      n ≤ p.line ∧ ls[p.line - n]? = some p.text ∧ p.col ≤ p.text.length := by
+  intro ls
+  induction ls with
+  | nil => intro n r hr p hp; simp [Spec.lines] at hr; subst hr; simp [Res.pos?] at hp
+  | cons l ls ih =>
+    intro n r hr p hp
+    simp only [Spec.lines, List.mem_append] at hr
+    rcases hr with (hr | hr) | hr
+    · split at hr
+      · simp at hr; subst hr; simp [Res.pos?] at hp
+      · simp at hr
+    · obtain ⟨item, hi, rfl⟩ := List.mem_map.mp hr
+      cases item with
+      | token t q =>
+        simp [Res.map, Res.pos?] at hp; subst hp
+        have := scan_col_lt cfg _ _ _ _ _ hi q rfl
+        have hb := buffer_length cfg l
+        have ht := trimRight_length_le l
+        simp only [Nat.zero_add] at this
+        refine ⟨Nat.le_refl _, by simp, ?_⟩
+        simp only []
+        split at hb <;> omega
+      | invalid c q =>
+        simp [Res.map, Res.pos?] at hp; subst hp
+        have := scan_col_lt cfg _ _ _ _ _ hi q rfl
+        have hb := buffer_length cfg l
+        have ht := trimRight_length_le l
+        simp only [Nat.zero_add] at this
+        refine ⟨Nat.le_refl _, by simp, ?_⟩
+        simp only []
+        split at hb <;> omega
+      | _ => simp [Res.map, Res.pos?] at hp
+    · obtain ⟨h1, h2, h3⟩ := ih (n + 1) r hr p hp
+      refine ⟨by omega, ?_, h3⟩
+      have : p.line - n = (p.line - (n + 1)) + 1 := by omega
+      rw [this]; simpa using h2
+
+end C03
